@@ -489,6 +489,9 @@ def run(res, tier):
                     ini = G.local_init(f, core)
                     if ini is not core:
                         extra_atoms += derive(ini, pol)
+                # the decision of a join block is the value of a whole && / || chain (msa/facts.py): what it says about the operands depends on the operand decisions of the same path
+                if A.strip_casts(f.nodes[cid])['k'] == 'BinaryOperator' and A.strip_casts(f.nodes[cid]).get('op') in ('&&', '||'):
+                    extra_atoms += derive(f.nodes[cid], truth)
             okp = False
             for (cid, truth) in list(asg.items()) + [(None, None)]:
                 for (cn, t) in (A.implied_atoms(f.nodes[cid], truth) if cid is not None else extra_atoms):
